@@ -8,6 +8,8 @@ cd "$wt" || exit 2
 echo "== state"; git status --short | head
 git apply --check -R SEED/patch.diff 2>/dev/null && echo "patch is applied" || { git apply SEED/patch.diff && echo "patch applied now"; }
 demo=$(ls SEED/*.rs | head -1); cp "$demo" crates/$crate/tests/seed_demo.rs
+# the worktrees share one target dir: make this worktree's sources newer than any artifact in it
+find crates -name "*.rs" -exec touch {} +
 echo "== demo WITH change"; timeout 3000 cargo test --offline -p $crate --test seed_demo 2>&1 | grep -E "^test |test result" | tail -8
 echo "== existing tests WITH change"; timeout 5000 cargo nextest run -p $crate --no-fail-fast --offline -E 'not binary(seed_demo)' 2>&1 | grep -E "^\s+(FAIL|SIGABRT|TIMEOUT)|Summary" | sort | uniq | tail -15
 git apply -R SEED/patch.diff
